@@ -220,6 +220,7 @@ Definition double_at (a b : token) : option token :=
   | TOp OGt, TOp OEq => Some (TOp OGe)
   | TOp OLt, TOp OEq => Some (TOp OLe)
   | TOp OLt, TOp OGt => Some (TOp ONe)
+  | TOp OGt, TOp OLt => Some (TOp ONe)
   | _, _ => None
   end.
 
